@@ -195,10 +195,15 @@ def run_rc_unit(res, rundir, unit, variants, tier, seed, known_preds, scale, tim
         if chk not in owned:
             continue
         reproduced = False
-        for v in vorder:
-            cpath, vn, rc, out = do_replay((rp, v), with_known=False)
-            if rc not in (0, 2):
-                reproduced = True
+        # "the finding is still there" is an existential claim: schedule-dependent cases (thread-pool histories) get
+        # several attempts per variant; the first failing run settles it
+        for attempt in range(int(kf.get("replay_attempts", 1))):
+            for v in vorder:
+                cpath, vn, rc, out = do_replay((rp, v), with_known=False)
+                if rc not in (0, 2):
+                    reproduced = True
+                    break
+            if reproduced:
                 break
         if reproduced:
             res.known_lines.append("KNOWN-FINDING: property=%s %s" % (res.prop, kf["what"]))
